@@ -164,7 +164,7 @@ static int parse_tok(char *s, tok_t *t) {
   t->kind = T_NUM; if (s[0] == '-') { t->neg = 1; s++; len--; }
   return parse_hex_limbs(s, len, &t->d, &t->n);
 }
-long tok_long(const tok_t *t) { long v = t->n ? (long)t->d[0] : 0; return t->neg ? -v : v; }
+long tok_long(const tok_t *t) { unsigned long v = t->n ? t->d[0] : 0; return (long)(t->neg ? 0UL - v : v); }
 unsigned long tok_ulong(const tok_t *t) { return t->n ? t->d[0] : 0; }
 void tok_mpz(mpz_ptr z, const tok_t *t) {
   mpz_realloc2(z, t->n > 0 ? t->n * 64 : 1);
@@ -206,6 +206,7 @@ int main(int argc, char **argv) {
   (void)argc; (void)argv;
   mp_set_memory_functions(h_alloc, h_realloc, h_free);
   signal(SIGFPE, on_fpe);
+  setvbuf(stdout, NULL, _IOLBF, 0);   /* a crash must not lose the answers already produced */
   char *line = NULL; size_t cap = 0; ssize_t got;
   out_t o = {0};
   static tok_t toks[64];
